@@ -3,7 +3,7 @@
 From Coq Require Import List Bool Arith ZArith NArith Permutation.
 From XD Require Import lib.ListAux lib.Toposort model.Manager model.ManagerData
   proofs.ManagerIdx proofs.ManagerInv proofs.ManagerHist proofs.ManagerTrace proofs.ManagerDataInv proofs.ManagerExtra.
-From XD Require Import model.TasksSem gen.GenTasks proofs.TasksSrc proofs.TasksSrcRefresh.
+From XD Require Import model.TasksSem model.TasksSemData gen.GenTasks gen.GenTasksData proofs.TasksSrc proofs.TasksSrcData proofs.TasksSrcRefresh.
 Import ListNotations.
 Local Open Scope nat_scope.
 
@@ -129,6 +129,12 @@ Proof.
   intros m (W & _). apply (src_cleanup_eq path_eqb path_eqb_spec). now apply (mwf_keys_ok path_eqb).
 Qed.
 
+(* the translated Manager.load (after the texts were evaluated to (target, expression) pairs) is the model's MLoad step *)
+Theorem C03_load_is_source : forall (s : dstate) ow dump (m : dmgr) tr,
+  src_load dump ow (m, s, tr) =
+  let '(m', s', out) := step m s (MLoad (map load_task dump) ow) in ((m', s', tr), res_of (o_err out)).
+Proof. exact src_load_eq. Qed.
+
 Print Assumptions C03_inv_register.
 Print Assumptions C03_inv_unregister.
 Print Assumptions C03_history_independent.
@@ -145,3 +151,4 @@ Print Assumptions C03_unregister_is_source_paths.
 Print Assumptions C03_refcount_is_source.
 Print Assumptions C03_refresh_is_source.
 Print Assumptions C03_cleanup_is_source.
+Print Assumptions C03_load_is_source.
